@@ -44,14 +44,18 @@ func (l *UnwrapAggPlanner) addValue(ctx *shared.PlannerContext, entry *shared.Lo
 			stream.values[idx] = entry.Value
 			stream.values[idx+1] = 1
 		}
+	// entries arrive ordered by timestamp, ascending only for direction=forward
+	// (MainOrderByPlanner): the earliest sample is the first to arrive or the last one
 	case "first_over_time":
-		if stream.values[idx+1] == 0 {
+		if !ctx.OrderASC || stream.values[idx+1] == 0 {
 			stream.values[idx] = entry.Value
 			stream.values[idx+1] = 1
 		}
 	case "last_over_time":
-		stream.values[idx] = entry.Value
-		stream.values[idx+1] = 1
+		if ctx.OrderASC || stream.values[idx+1] == 0 {
+			stream.values[idx] = entry.Value
+			stream.values[idx+1] = 1
+		}
 	}
 }
 
